@@ -1079,4 +1079,39 @@ theorem resolvePath_scopeAt (st : St) (p : List Name) (s : ScopeId) (n : Name) (
         simp only [List.cons_append, resolvePath, resolveFirst, hm]
         exact resolveRest_scopeAt st p dm s1 s n d hg hs hn
 
+/-! ## names -/
+
+mutual
+/-- every named item of the library (at any depth, inside impl blocks too) has a valid name -/
+def NamesValid (lex : Name → Lex) : Items → Prop
+  | .nil => True
+  | .cons i is => NameValidItem lex i ∧ NamesValid lex is
+def NameValidItem (lex : Name → Lex) : Item → Prop
+  | .module n ch => ValidName (lex n) ∧ NamesValid lex ch
+  | .type n _ => ValidName (lex n)
+  | .function n _ _ _ => ValidName (lex n)
+  | .constant n _ _ => ValidName (lex n)
+  | .impl _ ch => NamesValid lex ch
+  | .use _ => True
+end
+
+mutual
+theorem namesOk_iff (lex : Name → Lex) :
+    ∀ (is : Items), namesOk Cfg.fixed lex is = true ↔ NamesValid lex is
+  | .nil => by simp [namesOk, NamesValid]
+  | .cons i is => by
+    simp only [namesOk, NamesValid, Bool.and_eq_true]
+    exact and_congr (nameOkItem_iff lex i) (namesOk_iff lex is)
+theorem nameOkItem_iff (lex : Name → Lex) :
+    ∀ (i : Item), nameOkItem Cfg.fixed lex i = true ↔ NameValidItem lex i
+  | .module n ch => by
+    simp only [nameOkItem, NameValidItem, Bool.and_eq_true]
+    exact and_congr (checkName_fixed_iff _) (namesOk_iff lex ch)
+  | .type n _ => by simp only [nameOkItem, NameValidItem]; exact checkName_fixed_iff _
+  | .function n _ _ _ => by simp only [nameOkItem, NameValidItem]; exact checkName_fixed_iff _
+  | .constant n _ _ => by simp only [nameOkItem, NameValidItem]; exact checkName_fixed_iff _
+  | .impl _ ch => by simp only [nameOkItem, NameValidItem]; exact namesOk_iff lex ch
+  | .use _ => by simp [nameOkItem, NameValidItem]
+end
+
 end RotoV.Reg
